@@ -67,7 +67,7 @@ def _orientation(r):
 
 SCENARIOS = ['regular', 'regular', 'regular', 'dups', 'gaps', 'gaps_hint', 'dups_gaps', 'jitter_in', 'jitter_out',
              'shear_in', 'shear_out', 'twin', 'hint_ok', 'hint_neg', 'hint_bad', 'unsorted', 'missing_jitter_in',
-             'missing_jitter_out', 'irregular', 'single', 'all_same', 'hint_drift']
+             'missing_jitter_out', 'irregular', 'single', 'all_same']
 
 
 def _scenario(r, idx, want=None):
@@ -509,6 +509,29 @@ def _integer_cases(ctx, reqs, pend):
         pend.append((case, obs, True))
 
 
+def _hint_drift_cases(ctx, reqs, pend):
+    """open finding C11-hint-drift: a handful of long stacks in the gaps branch with a hint within the 1 % tolerance of the
+    true spacing.  Runs LAST and reports at most one failure per case, so that the attributed failures can never crowd
+    real ones out of the (bounded) failure list."""
+    from highdicom import spatial as sp
+    for i in range(6 if ctx.tier == 'quick' else 12):
+        r = ctx.rng('drift', i)
+        sc = _scenario(r, i, want='hint_drift')
+        st, val = _call(sp.get_volume_positions, sc['positions'], sc['ori'], **sc['opts'])
+        obs = _observe(st, val)
+        case = {'fn': 'get_volume_positions', 'i': i, 'scenario': 'hint_drift', 'positions': sc['positions'], 'ori': sc['ori'],
+                'opts': sc['opts'], 'expected': sc['expected']}
+        ctx.case(scenario='hint_drift', n=len(sc['positions']), outcome=obs[0], expected=sc['expected'][0],
+                 nontrivial_key=('hint_drift', i, obs[0]))
+        before = len(ctx.failures)
+        _check_expected(ctx, case, obs, sc)
+        if len(ctx.failures) == before:
+            _check_order(ctx, case, obs, sc)
+        del ctx.failures[before + 1:]
+        reqs.append(('volumePositions', _margs(sc)))
+        pend.append((case, obs, False))
+
+
 # ------------------------------------------------------------------ 2. numpy primitives against their declarative models (L2)
 def _primitive_cases(ctx, reqs, pend2):
     n = ctx.n(60, 1500)
@@ -839,6 +862,7 @@ def run(ctx):
     stage(lambda: _primitive_cases(ctx, reqs, pend2), pend2, 'q')
     stage(lambda: _assembly_cases(ctx, reqs, pend), pend, 'p')
     stage(lambda: _series_wrapper_cases(ctx, reqs, pend), pend, 'p')
+    stage(lambda: _hint_drift_cases(ctx, reqs, pend), pend, 'p')
     ctx._order = marks
     _compare(ctx, reqs, pend, pend2)
 
